@@ -40,6 +40,9 @@ type Attempt struct {
 	// Roll: the (failing) configuration names other rotate_* values for the running site's access log;
 	// after the failure the running site writes more than a megabyte of log.
 	Roll bool `json:"roll,omitempty"`
+	// Tail (kind htpasswd-corrupted): the damaged line comes after the file's valid lines instead of
+	// replacing them, so that parsing fails part-way
+	Tail bool `json:"tail,omitempty"`
 }
 
 const shaPassword = "{SHA}W6ph5Mm5Pz8GgiULbPgzG37mj9g="
@@ -193,7 +196,11 @@ func script(c *Case, dir string, only int) *child.Script {
 		}
 		if a.Kind == "htpasswd-corrupted" {
 			// the htpasswd file that earlier loads have read is malformed while this attempt is made
-			sc.Steps = append(sc.Steps, child.Step{Op: "writefile", Path: "ht.txt", Text: "this line has no colon\n"})
+			bad := "this line has no colon\n"
+			if a.Tail {
+				bad = htGood + bad
+			}
+			sc.Steps = append(sc.Steps, child.Step{Op: "writefile", Path: "ht.txt", Text: bad})
 		}
 		sc.Steps = append(sc.Steps, child.Step{Op: op, Text: t})
 		if a.Kind == "htpasswd-corrupted" {
@@ -411,6 +418,9 @@ func genCase(t *rapid.T) *Case {
 			}
 			a.Kind = rapid.SampledFrom(kindsLeft).Draw(t, lb+"kind")
 			a.K = i
+			if a.Kind == "htpasswd-corrupted" {
+				a.Tail = rapid.Bool().Draw(t, lb+"tail")
+			}
 			if running && a.Kind != "lex" {
 				a.Roll = rapid.IntRange(0, 3).Draw(t, lb+"roll") == 0
 			}
